@@ -20,6 +20,37 @@ COMMAND = "bin:" + WD.SERVER + "::command"
 VERIF = os.path.dirname(os.path.dirname(os.path.abspath(__file__)))
 
 
+def db_path_components(W):
+    """Path of the database file relative to the directory handed to SqliteStorage::new, from the value stored in the
+    constructed SqliteStorage's path field: ['taskchampion-sync-server.sqlite3'] on the pinned tree. None if not of the form
+    directory.join(c1).join(c2)..."""
+    sn = W.body(WD.SQLITE + "::SqliteStorage::new")
+    pv = W.prov(sn)
+    vals = []
+    for blk in sn.blocks:
+        if blk["cleanup"]:
+            continue
+        for st in blk["stmts"]:
+            if st["k"] == "assign" and st["rv"]["k"] == "aggregate" and st["rv"].get("adt", "").endswith("::SqliteStorage"):
+                t = pv.rvalue_term(st["rv"])
+                vals.append(dict(t[2]).get("db_file"))
+    if len(vals) != 1 or vals[0] is None:
+        return None
+    t = vals[0]
+    comps = []
+    while t[0] == "call" and t[1] == "std::path::Path::join" and len(t[3]) == 2:
+        c = H.const_str(t[3][1])
+        if c is None:
+            return None
+        comps.append(c)
+        t = t[3][0]
+    while t[0] == "mut":
+        t = t[3]
+    if not (t[0] == "param" and t[1] == 1):
+        return None
+    return list(reversed(comps))
+
+
 # =========================================================================== C17
 def c17(rep, W, rule="C17", sections=None):
     """sections: None = everything; or a set of rule suffixes ({".LIST", ".ARGS"}) for properties that rely on part of the wiring."""
@@ -82,13 +113,10 @@ def c17(rep, W, rule="C17", sections=None):
            "WebServer::new builds ServerState{server: Server::new(config, storage), client_id_allowlist}", where(wn))
     # database path
     sn = W.body(WD.SQLITE + "::SqliteStorage::new")
-    pvs = W.prov(sn)
-    okp = False
-    for bb, t in sn.calls():
-        if t["callee"].get("def") == "std::path::Path::join":
-            a = pvs.arg_terms(bb)
-            okp = okp or (m(("param", 1, ANY), a[0]) is not None and H.const_str(a[1]) == "taskchampion-sync-server.sqlite3")
-    rep.ob(rule + ".DIR", ("SqliteStorage::new", "file-in-directory"), okp, "database file is <directory>/taskchampion-sync-server.sqlite3", where(sn))
+    comps = db_path_components(W)
+    rep.ob(rule + ".DIR", ("SqliteStorage::new", "file-in-directory"), comps == ["taskchampion-sync-server.sqlite3"],
+           "the database the storage object opens is <directory>/%s; the documented location is <directory>/taskchampion-sync-server.sqlite3"
+           % ("/".join(comps) if comps else "<not a constant path below the given directory>"), where(sn))
     # LISTEN: bind loop
     binds = S.sites_of(mb, "actix_web::server::HttpServer::<F, I, S, B>::bind")
     runs = S.sites_of(mb, "actix_web::server::HttpServer::<F, I, S, B>::run")
@@ -447,13 +475,15 @@ def uuid_decoder_class(W):
 def format_descriptor(W):
     ss, un, uc, inst = S.sql_world(W)
     tables, indexes = SM.schema(ss)
-    d = {"file": None, "tables": {}, "indexes": sorted([list(map(str, i)) for i in indexes]), "columns": {}, "uuid_encoder": uuid_encoder_class(W),
+    uniq = {}
+    for s_ in ss:
+        for st_ in s_.stmts:
+            if st_["verb"] == "CREATE INDEX":
+                uniq[st_["ddl"]["index"]] = bool(st_["ddl"].get("unique"))
+    d = {"file": None, "tables": {}, "indexes": sorted([[str(i[0]), str(i[1]) + (" UNIQUE" if uniq.get(i[1]) else ""), str(i[2])] for i in indexes]), "columns": {}, "uuid_encoder": uuid_encoder_class(W),
          "uuid_decoder": uuid_decoder_class(W)}
-    sn = W.body(WD.SQLITE + "::SqliteStorage::new")
-    pvs = W.prov(sn)
-    for bb, t in sn.calls():
-        if t["callee"].get("def") == "std::path::Path::join":
-            d["file"] = H.const_str(pvs.arg_terms(bb)[1])
+    comps = db_path_components(W)
+    d["file"] = "/".join(comps) if comps else None
     for tname, cols in tables.items():
         d["tables"][tname] = {c: {"type": cd["type"], "affinity": SM.SQL.affinity(cd["type"]), "pk": cd["pk"], "notnull": cd["notnull"]} for c, cd in cols.items()}
     # per column: write encoders / read decoders
@@ -564,6 +594,13 @@ def c19(rep, W, ctx, rule="C19"):
             if c not in base["tables"].get(tb, {}):
                 rep.fail(rule + ".SCHEMA", (tb, c, "new-column"), "column %s.%s does not exist in databases written by the pinned release and no ALTER TABLE ... ADD COLUMN migrates them" % (tb, c))
     rep.floor(rule + ".SCHEMA", "columns used by statements", len(used), 8)
+    # indexes / constraints created at open time are applied to the OLD data too
+    base_idx = set(tuple(x) for x in base.get("indexes", []))
+    for ix in cur.get("indexes", []):
+        rep.ob(rule + ".SCHEMA", ("index", ix[1]), tuple(ix) in base_idx,
+               "index %s on %s%s is created when an old database is opened; the pinned release %s" % (
+                   ix[1], ix[0], ix[2], "had it too" if tuple(ix) in base_idx else "did NOT have it: a new (unique) index is built over old data that was never checked against it"),
+               nontrivial=False)
     # ENC
     rep.ob(rule + ".ENC", ("uuid", "encoder"), cur["uuid_encoder"] == base["uuid_encoder"],
            "ids are written / looked up as %s; the pinned release wrote %s (equality lookups need the identical text form)" % (cur["uuid_encoder"], base["uuid_encoder"]))
